@@ -133,6 +133,19 @@ class Check:
         e["_neg"] = expect_prefix
         self.negs.append(e)
 
+    def negative_from(self, events, pred, mutate, expect_prefix):
+        """Negative control built from the first recorded event satisfying pred (a deep copy is mutated).  If the tree under
+        test yields no such event (a broken tree may not), the control is skipped and counted - never a machinery error."""
+        src = next((e for e in events if pred(e)), None)
+        if src is None:
+            self.neg_skipped = getattr(self, "neg_skipped", 0) + 1
+            return False
+        e = json.loads(json.dumps(src))
+        mutate(e)
+        e["_neg"] = expect_prefix
+        self.negs.append(e)
+        return True
+
     def count_nontrivial(self, key):
         self.nontrivial.add(key if isinstance(key, (str, int, tuple)) else json.dumps(key, sort_keys=True))
 
@@ -196,7 +209,7 @@ class Check:
         cov = {"states": self.states, "transitions": self.transitions,
                "traces_validated_against_impl": len(self.events),
                "samples": smp, "evaluations": len(self.events), "distinct_nontrivial": len(self.nontrivial),
-               "rule": self.rule, "model_runs": self.model_runs, "negative_controls_rejected": len(self.negs),
+               "rule": self.rule, "model_runs": self.model_runs, "negative_controls_rejected": len(self.negs), "negative_controls_skipped_no_source_event": getattr(self, "neg_skipped", 0),
                "drift_events": drift, "events_outside_judge_arithmetic_range": skipped, "events_failing_only_other_properties_clauses": foreign,
                "known_finding_cases": {k: v[1] for k, v in known.items()},
                "trace_validation_wall_s": round(self.tlc_trace_wall, 1)}
